@@ -856,6 +856,25 @@ Proof.
     inversion H; subst out. eexists; eexists. split.
     + ok_start. cbn [exec_cmd]. ok_rw. reflexivity.
     + reflexivity.
+  - (* x=w NAME ARGS *)
+    cbn [sem_cmd] in H. rewrite wf_prefix_call in Hw.
+    destruct (expand_word w s) as [fields|] eqn:Ew.
+    + destruct (is_ronly x s) eqn:Ero.
+      * inversion H; subst out. exists (handle_expansion_error stk s), s. split.
+        -- now1. cbn [exec_cmd]. rewrite Ew, Ero. reflexivity.
+        -- apply (abs_expansion_error stk sv s ErrAssignment eq_refl eq_refl ex).
+      * destruct (sem_cmd n d ex sv (CCall plain nm args) (set_var x (hd_error fields) s))
+          as [[c1 t1]|] eqn:Ecall; [|discriminate].
+        inversion H; subst out.
+        assert (Hs0 : state_ok (set_var x (hd_error fields) s))
+          by (eapply state_ok_same; [..|exact Hs]; reflexivity).
+        destruct (Icmd stk _ _ _ _ _ _ _ Ecall Hc Hw Hs0) as (r1 & s1 & Hok1 & Habs1).
+        exists r1, (if is_special nm then s1 else restore_var x s s1). split.
+        -- ok_start. cbn [exec_cmd]. rewrite Ew, Ero. ok_rw. reflexivity.
+        -- destruct (is_special nm); [exact Habs1|]. rewrite abs_restore, Habs1. reflexivity.
+    + inversion H; subst out. exists (handle_expansion_error stk s), s. split.
+      * now1. cbn [exec_cmd]. rewrite Ew. reflexivity.
+      * apply (abs_expansion_error stk sv s ErrExpansion eq_refl eq_refl ex).
   - exact (rstep_call n Icmd _ _ _ _ _ _ _ _ _ _ H Hc Hw Hs).
   - (* brace group *)
     cbn [sem_cmd] in H. cbn [wf_cmd] in Hw.
